@@ -778,6 +778,34 @@ impl Engine for C15 {
             let nops = if deep { rng.range(2, 5) as usize } else { rng.range(1, 3) as usize };
             threads.push((0..nops).map(|_| gen_op(rng, keyspace, &w)).collect::<Vec<Op>>());
         }
+        // rarely: one long query (more pairs than any batching threshold one might
+        // plausibly introduce) verified several times in the run, so that later
+        // verifications find most of it cached
+        let mut prefix = prefix;
+        if rng.chance(1, 50) {
+            let n = rng.range(33, 70) as usize;
+            let pairs = gen_pairs(rng, NKEYS, n, false);
+            let mut signed = pairs.clone();
+            match rng.below(4) {
+                0 => {
+                    let i = rng.usize_below(signed.len());
+                    signed.remove(i);
+                }
+                1 => {
+                    let i = rng.usize_below(signed.len());
+                    signed[i].0 = (signed[i].0 + 1) % NKEYS as u8;
+                }
+                _ => {}
+            }
+            let q = Query { pairs, sig: SigSpec::Agg(signed) };
+            prefix.push(Op::Verify(q.clone()));
+            let t = rng.usize_below(threads.len());
+            threads[t].insert(0, Op::Verify(q.clone()));
+            if rng.chance(1, 2) {
+                let t2 = rng.usize_below(threads.len());
+                threads[t2].push(Op::Verify(q));
+            }
+        }
         let est: usize = threads.iter().flatten().map(op_cost).sum();
         let strategy = gen_strategy(rng, est as u32);
         Case { capacity, prefix, threads, strategy, pure_paths: rng.chance(1, 4) }
